@@ -78,7 +78,8 @@ def mk_old(old, fname="old"):
         s.vpot = 0.25 * i
         s.ekin = 1.0 + i
         p.phasepoints.append(s)
-    p.generated = ("ld" if old.get("ld") else "xx", 0.0, 0, 0)
+    # 're' = a path reloaded after a restart: it must be treated like any other path, only 'ld' lifts the length bound
+    p.generated = ("ld" if old.get("ld") else ("re" if old.get("re") else "xx"), 0.0, 0, 0)
     p.status = "ACC"
     p.path_number = 7
     return p
@@ -514,8 +515,8 @@ def gen_shoot_grid(ctx, budget):
                 cand = [(o, i) for o in olds for i in range(1, L - 1) if o[i] == osp]
                 if not cand:
                     continue
-                for flags in ("", "ld", "allow"):
-                    for r in (rgrid if flags == "" else [Fr(1, 2)]):
+                for flags in ("", "ld", "allow", "re"):
+                    for r in (rgrid if flags in ("", "re") else [Fr(1, 2)]):
                         if not float_exact(L, r):
                             ctx.dist("float_boundary_skipped")
                             continue
@@ -538,7 +539,7 @@ def gen_shoot_grid(ctx, budget):
         cfg = SHOOT_CFG[ci]
         olds = [(o, i) for o in valid_olds(cfg, L) for i in range(1, L - 1) if o[i] == osp]
         o, idx = olds[rng.randrange(len(olds))]
-        unlimited = flags != ""
+        unlimited = flags in ("ld", "allow")
         # planned backward / forward lengths relative to the limits
         small = 5
         large = 60
@@ -570,7 +571,7 @@ def gen_shoot_grid(ctx, budget):
         case = {"kind": "shoot", "intf": cfg["intf"], "sc": cfg["sc"], "maxlength": maxlength,
                 "allowmax": flags == "allow",
                 "old": {"orders": list(o), "revs": [rng.random() < 0.5 for _ in o], "maxlen": maxlength + 3,
-                        "t0": rng.randrange(-3, 9), "ld": flags == "ld"},
+                        "t0": rng.randrange(-3, 9), "ld": flags == "ld", "re": flags == "re"},
                 "draws": [str(u_for_idx(idx, L))] + ([] if unlimited else [str(r)]),
                 "kicks": [], "streams": [sb, sf], "class": "grid"}
         out.append(case)
